@@ -336,7 +336,19 @@ func (a *BigInt) pow(b, m *BigInt) (Object, error) {
 		}
 		return fa.M__pow__(fb, None)
 	}
-	return (*BigInt)(new(big.Int).Exp((*big.Int)(a), (*big.Int)(b), (*big.Int)(m))).MaybeInt(), nil
+	if m != nil {
+		mod := (*big.Int)(m)
+		if mod.Sign() == 0 {
+			return nil, ExceptionNewf(ValueError, "pow() 3rd argument cannot be 0")
+		}
+		// big.Int.Exp uses |m| and returns a result in [0, |m|); python's result has the sign of m
+		res := new(big.Int).Exp((*big.Int)(a), (*big.Int)(b), new(big.Int).Abs(mod))
+		if mod.Sign() < 0 && res.Sign() != 0 {
+			res.Add(res, mod)
+		}
+		return (*BigInt)(res).MaybeInt(), nil
+	}
+	return (*BigInt)(new(big.Int).Exp((*big.Int)(a), (*big.Int)(b), nil)).MaybeInt(), nil
 }
 
 func (a *BigInt) M__pow__(other, modulus Object) (Object, error) {
